@@ -239,6 +239,9 @@ func (e *Exec) stubFor(fn *ssa.Function, name string) (intrinsic, bool) {
 			if h, ok := harnessIntrinsic(fn.Name()); ok && fn.Blocks == nil {
 				return h, true
 			}
+			if h, ok := raceIntrinsic(fn.Name()); ok && fn.Blocks == nil {
+				return h, true
+			}
 		}
 	}
 	return nil, false
@@ -331,10 +334,27 @@ func init() {
 		"(*sync.Once).Do": func(e *Exec, fn *ssa.Function, args []Value) Value {
 			c := args[0].(*Cell)
 			key := fmt.Sprintf("once:%d", c.id)
+			oname := key
+			if e.race != nil {
+				if n, ok := e.race.names[c]; ok {
+					oname = n
+				}
+			}
 			if _, done := e.effects[key]; done {
+				if e.race != nil && e.race.active {
+					e.race.done[oname] = true
+				}
 				return nil
 			}
 			e.effects[key] = tTrue
+			if e.race != nil && e.race.active {
+				save := e.race.curOnce
+				e.race.curOnce = oname
+				e.callValue(args[1].(*FuncV), nil, nil)
+				e.race.curOnce = save
+				e.race.done[oname] = true
+				return nil
+			}
 			e.callValue(args[1].(*FuncV), nil, nil)
 			return nil
 		},
@@ -405,15 +425,34 @@ func fmtStub(e *Exec, fn *ssa.Function, args []Value) Value {
 	return StrV{s: "<fmt>"}
 }
 
+func (e *Exec) atomically(f func() Value, flagCell Value) Value {
+	if e.race == nil || !e.race.active {
+		return f()
+	}
+	save := e.race.inAtomic
+	e.race.inAtomic = true
+	v := f()
+	e.race.inAtomic = save
+	// an atomic load that observed a non-zero flag is a guard for later accesses
+	if c, ok := flagCell.(*Cell); ok && c != nil {
+		if t, isT := v.(*Term); isT && t.konst && t.c != 0 {
+			if n, ok := e.race.names[c]; ok {
+				e.race.guards[n] = true
+			}
+		}
+	}
+	return v
+}
+
 func atomicLoad(e *Exec, fn *ssa.Function, args []Value) Value {
-	return e.loadFrom(args[0], nil)
+	return e.atomically(func() Value { return e.loadFrom(args[0], nil) }, args[0])
 }
 func atomicLoadField(e *Exec, fn *ssa.Function, args []Value) Value {
 	sm := args[0].(*Cell).v.(*StructM)
 	return sm.fields[len(sm.fields)-1].v
 }
 func atomicStore(e *Exec, fn *ssa.Function, args []Value) Value {
-	e.storeTo(args[0], args[1])
+	e.atomically(func() Value { e.storeTo(args[0], args[1]); return nil }, nil)
 	return nil
 }
 func atomicAdd(e *Exec, fn *ssa.Function, args []Value) Value {
